@@ -31,7 +31,7 @@ impl Actor for A4 {}
 impl RestartableActor for A4 {}
 impl Handler<U> for A4 { async fn handle(&mut self, _: &mut Context<Self>, _: U) {} }
 
-async fn client(addr: Addr<A1>, mut addr3: Addr<A3>, mut addr1m: Addr<A1>) { CLIENT }
+async fn client(addr: Addr<A1>, mut addr3: Addr<A3>, mut addr1m: Addr<A1>, own: hannibal::OwningAddr<A1>) { CLIENT }
 fn main() {}
 '''
 P = {"A1": "handles=1,2 restartable=0 default=1 streams=", "A2": "handles= restartable=0 default=0 streams=10",
@@ -44,6 +44,7 @@ def add(name, entry, actor, msg, code, where="CLIENT", state="restartOnly", item
     C.append((name, entry, actor, msg, state, item, where, code))
 for m, tag in (("U", "ok"), ("N", "bad_handler"), ("R", "bad_unit")):
     add(f"{tag}_addr_send", "addrSend", "A1", m, f"let _ = addr.send({m}).await;")
+    add(f"{tag}_owning_send", "owningSend", "A1", m, f"let _ = own.send({m}).await;")
     add(f"{tag}_addr_sender", "addrSender", "A1", m, f"let _ = addr.sender::<{m}>();")
     add(f"{tag}_addr_weak_sender", "addrWeakSender", "A1", m, f"let _ = addr.weak_sender::<{m}>();")
     add(f"{tag}_ctx_weak_sender", "ctxWeakSender", "A1", m, f"let _ = ctx.weak_sender::<{m}>();", "CTX1")
@@ -53,6 +54,7 @@ for m, tag in (("U", "ok"), ("N", "bad_handler"), ("R", "bad_unit")):
     add(f"{tag}_ctx_subscribe", "ctxSubscribe", "A1", m, f"let _ = ctx.subscribe::<{m}>().await;", "CTX1")
 for m, tag in (("R", "ok"), ("N", "bad_handler")):
     add(f"{tag}_addr_call", "addrCall", "A1", m, f"let _ = addr.call({m}).await;")
+    add(f"{tag}_owning_call", "owningCall", "A1", m, f"let _ = own.call({m}).await;")
     add(f"{tag}_addr_caller", "addrCaller", "A1", m, f"let _ = addr.caller::<{m}>();")
     add(f"{tag}_addr_weak_caller", "addrWeakCaller", "A1", m, f"let _ = addr.weak_caller::<{m}>();")
     add(f"{tag}_ctx_weak_caller", "ctxWeakCaller", "A1", m, f"let _ = ctx.weak_caller::<{m}, _>();", "CTX1")
@@ -71,6 +73,10 @@ add("ok_with_stream", "withStream", "A2", "U", f"let _ = hannibal::build(A2).unb
 add("bad_state_with_stream", "withStream", "A2", "U", f"let _ = hannibal::build(A2).unbounded().with_stream({st});", state="restartOnly", item=10)
 add("bad_state2_with_stream", "withStream", "A3", "U", f"let _ = hannibal::build(A3).unbounded().recreate_from_default().with_stream({st});", state="recreate", item=10)
 add("bad_streamhandler_with_stream", "withStream", "A1", "U", f"let _ = hannibal::build(A1).unbounded().non_restartable().with_stream({st});", state="nonRestartable", item=10)
+add("ok_builder_on_stream", "builderOnStream", "A2", "U", f"let _ = hannibal::build(A2).on_stream({st});", item=10)
+add("bad_streamhandler_builder_on_stream", "builderOnStream", "A1", "U", f"let _ = hannibal::build(A1).on_stream({st});", item=10)
+add("ok_builder_bounded_on_stream", "builderBoundedOnStream", "A2", "U", f"let _ = hannibal::build(A2).bounded_on_stream(1, {st});", item=10)
+add("bad_streamhandler_builder_bounded_on_stream", "builderBoundedOnStream", "A1", "U", f"let _ = hannibal::build(A1).bounded_on_stream(1, {st});", item=10)
 add("ok_recreate_from_default", "recreateFromDefault", "A3", "U", "let _ = hannibal::build(A3).unbounded().recreate_from_default();")
 add("bad_default_recreate_from_default", "recreateFromDefault", "A4", "U", "let _ = hannibal::build(A4).unbounded().recreate_from_default();")
 add("bad_restartable_recreate_from_default", "recreateFromDefault", "A1", "U", "let _ = hannibal::build(A1).unbounded().recreate_from_default();")
